@@ -28,12 +28,12 @@ m = {
     "setup_cmd": "./setup",
     "hooks": {"guard": "verif", "enable": "go build -tags verif (harness module with replace => /repo)",
               "baseline_off_cmd": "cd /repo && GOFLAGS=-mod=mod GOPROXY=off GOSUMDB=off GOTOOLCHAIN=local go test -json -vet=off -count=1 ./...",
-              "source_commits": [], "add_only": True},
+              "source_commits": ["fd89801"], "add_only": True},
     "engines": [{"name": "coq-proof+correspondence", "path": "/verif/check", "serves_properties": [c["property_id"] for c in checks],
                  "kind_free_text": "Coq proofs over hand-written executable models (coq/theories), data regenerated from /repo by gen/, extracted OCaml model run against the Go implementation by harness/"}],
     "checks": checks,
     "not_applicable": [{"property_id": pid, "reason": na.get(pid, "not yet built in this round: model, theorem and tie are designed in DESIGN.md section 5 but no check exists yet")} for pid in ids if pid not in [c["property_id"] for c in checks]],
-    "notes": "Every check rebuilds from /repo's working tree: gen/ regenerates Coq data tables, the harness is compiled against /repo with -tags verif. No hook in /repo is needed so far (source_commits empty). Fix commits in /repo are listed in known_findings.jsonl.",
+    "notes": "Every check rebuilds from /repo's working tree: gen/ regenerates Coq data tables, the harness is compiled against /repo with -tags verif. One hook commit in /repo (fd89801): two add-only files verifhook_on.go (//go:build verif) / verifhook_off.go (//go:build !verif) and two inserted verifPoint(...) lines in the writer goroutine of ConnectToPanel, used by the C11 wait-group scenario to hold that goroutine at its start; with the guard off verifPoint is an empty function. Fix commits in /repo are listed in known_findings.jsonl.",
 }
 json.dump(m, open(os.path.join(V, "MANIFEST.json"), "w"), indent=1)
 print("claimed:", [c["property_id"] for c in checks])
